@@ -55,6 +55,17 @@ func genMacro(r *Rand, tier string, emit func(sx.Sx)) {
 	for _, f := range fixed {
 		emit(sx.S(f))
 	}
+	// non-ASCII text inside string literals before, around and after macro names (the regexp engine
+	// counts in runes, Go strings in bytes): 2-, 3- and 4-byte characters, 1 to 12 of them
+	for _, ch := range []string{"é", "日", "😀", "カ"} {
+		for _, k := range []int{1, 2, 3, 4, 6, 10, 12} {
+			w := strings.Repeat(ch, k)
+			emit(sx.S("request.path == \"" + w + "\" or request.headers[\"x\"] == \"http\" or http"))
+			emit(sx.S("request.path == \"/" + w + "/" + w + "\" or http and !redis"))
+			emit(sx.S("\"" + w + " http " + w + "\" == a and amqp"))
+			emit(sx.S("http and a == \"" + w + "\" and \"kafka\" != \"" + w + "\" and dns"))
+		}
+	}
 	// macro names inside (terminated and unterminated) literals of growing length: the look-ahead that
 	// skips literals must stay linear in the text that follows the name
 	for _, n := range []int{5, 10, 15, 20, 24, 28, 40, 80, 200} {
@@ -74,7 +85,8 @@ func genMacro(r *Rand, tier string, emit func(sx.Sx)) {
 			}
 		}
 	}
-	pieces := append([]string{" and ", " or ", "!", "(", ")", " == ", "\"", "\"lit http\"", "request.path", "x", ".", "_", "2", " ", "\"redis\"", "Version", "\"a b\"", "1", "nil", "true"}, names...)
+	pieces := append([]string{" and ", " or ", "!", "(", ")", " == ", "\"", "\"lit http\"", "request.path", "x", ".", "_", "2", " ", "\"redis\"", "Version", "\"a b\"", "1", "nil", "true",
+		"\"日本語\"", "\"é\"", "\"カフェ http メニュー\"", "\"😀😀\""}, names...)
 	count := 3000
 	if tier == "thorough" {
 		count = 60000
